@@ -1165,6 +1165,16 @@ class PSBTIn:
                 or script_pubkey.is_p2wpkh()
             ):
                 raise ValueError("Witness UTXO provided for non-witness input")
+            if script_pubkey.is_p2sh() and self.redeem_script:
+                # p2sh-wrapped segwit: the RedeemScript is the witness program committed to
+                if self.redeem_script.hash160() != script_pubkey.commands[1]:
+                    raise ValueError(
+                        "RedeemScript hash160 and ScriptPubKey hash160 do not match"
+                    )
+                if not (
+                    self.redeem_script.is_p2wsh() or self.redeem_script.is_p2wpkh()
+                ):
+                    raise ValueError("Witness UTXO provided for non-witness input")
             if self.witness_script:  # p2wsh or p2sh-p2wsh
                 if not script_pubkey.is_p2wsh() and not (
                     self.redeem_script and self.redeem_script.is_p2wsh()
